@@ -14,6 +14,7 @@ import (
 	"math/rand"
 	"os"
 	"os/exec"
+	"path"
 	"path/filepath"
 	"regexp"
 	"sort"
@@ -192,6 +193,9 @@ type c08case struct {
 	Why    string    `json:"why,omitempty"`
 	Model  *modelReq `json:"model,omitempty"`
 	Repeat int       `json:"repeat,omitempty"` // k-th repetition of the same request on the same server
+	// Prelude: earlier requests of the same run that set up the state this one depends on (uploads to
+	// the same track directory, the steps of an API session); a replay sends them first.
+	Prelude []c08req `json:"prelude,omitempty"`
 }
 
 func queryEscape(v string) string {
@@ -288,12 +292,12 @@ type envRep struct {
 }
 
 type envAsset struct {
-	Path      string
-	SegDurMS  int64
-	LoopMS    int64
-	Reps      []envRep
-	Ref       int
-	MPDs      []string
+	Path     string
+	SegDurMS int64
+	LoopMS   int64
+	Reps     []envRep
+	Ref      int
+	MPDs     []string
 }
 
 func coqRep(r envRep) string {
@@ -390,8 +394,8 @@ func allKeys() []string {
 var hostileVals = []string{"", "0", "-1", "1", "2147483648", "4294967297", "9223372036854775808", "1e30", "x", "1.5", "inf", "1,2", ",", "{}"}
 var extraVals = []string{"nan", "-inf", "9223372036854775807", "-9223372036854775808", "0x10", "1_0", "+5", "-0", "3600", "-3600", "-1000", "5000", "60", "-60"}
 
-func isGoInt(s string) bool     { _, err := strconv.Atoi(s); return err == nil }
-func isGoFloat(s string) bool   { _, err := strconv.ParseFloat(s, 64); return err == nil }
+func isGoInt(s string) bool   { _, err := strconv.Atoi(s); return err == nil }
+func isGoFloat(s string) bool { _, err := strconv.ParseFloat(s, 64); return err == nil }
 func inList(s string, l []string) bool {
 	for _, x := range l {
 		if x == s {
@@ -1112,7 +1116,7 @@ func genReceiver(c *lib.Ctx, rng *rand.Rand) []c08case {
 			return o
 		}
 		bodies := [][]byte{
-			cat(box(8, "free", 0), box(0xfffffff8, "free", 0)),                          // back to offset 0
+			cat(box(8, "free", 0), box(0xfffffff8, "free", 0)),                               // back to offset 0
 			cat(box(16, "free", 8), box(12, "free", 4), box(uint32(1<<32-28), "free", 0)),    // back to box A
 			cat(box(16, "free", 8), box(12, "free", 4), box(uint32(1<<32-28+16), "free", 0)), // back to box B
 			cat(box(16, "styp", 8), box(12, "free", 4), box(uint32(1<<32-28+16), "moof", 8)),
@@ -1205,6 +1209,23 @@ func genReceiver(c *lib.Ctx, rng *rand.Rand) []c08case {
 			add("recv:bitflip-init", "PUT", fmt.Sprintf("%s/v%d/init.cmfv", base, i), b, nil)
 		}
 	}
+	// box surgery on a good init segment: every box of its tree removed, and every container emptied
+	// (sizes of the ancestors adjusted, so the result is structurally valid), each registered on a track
+	// of its own and followed by a good media segment on that track
+	{
+		base := newCh()
+		variants := initSurgery(initSeg)
+		for i, v := range variants {
+			if !c.Thorough() && len(variants) > 40 && i%2 == 1 && !strings.Contains(v.what, "mvex") && !strings.Contains(v.what, "trex") {
+				continue
+			}
+			tr := fmt.Sprintf("%s/s%d", base, i)
+			add("recv:init-surgery", "PUT", tr+"/init.cmfv", v.data, nil)
+			add("recv:init-surgery", "PUT", tr+"/0.cmfv", seg0, nil)
+			add("recv:init-surgery", "POST", tr+"/1.cmfv", seg1, nil)
+		}
+		c.Res.Notes = append(c.Res.Notes, fmt.Sprintf("init surgery: %d variants", len(variants)))
+	}
 	// init uploads that consist of (almost) empty boxes
 	{
 		base := newCh()
@@ -1244,6 +1265,81 @@ func genReceiver(c *lib.Ctx, rng *rand.Rand) []c08case {
 	return cs
 }
 
+type boxNode struct {
+	typ      string
+	payload  []byte // for leaves: everything after the 8-byte header; for containers: the bytes before the first child (none here)
+	children []*boxNode
+	cont     bool
+}
+
+var containerTypes = map[string]bool{"moov": true, "trak": true, "mdia": true, "minf": true, "stbl": true, "mvex": true, "dinf": true, "edts": true, "udta": true, "moof": true, "traf": true}
+
+func parseBoxes(b []byte) []*boxNode {
+	var out []*boxNode
+	for len(b) >= 8 {
+		size := int(binary.BigEndian.Uint32(b))
+		if size < 8 || size > len(b) {
+			break
+		}
+		n := &boxNode{typ: string(b[4:8])}
+		if containerTypes[n.typ] {
+			n.cont = true
+			n.children = parseBoxes(b[8:size])
+		} else {
+			n.payload = append([]byte{}, b[8:size]...)
+		}
+		out = append(out, n)
+		b = b[size:]
+	}
+	return out
+}
+
+func serializeBoxes(ns []*boxNode) []byte {
+	var out []byte
+	for _, n := range ns {
+		body := n.payload
+		if n.cont {
+			body = serializeBoxes(n.children)
+		}
+		out = append(out, rawbox(uint32(8+len(body)), n.typ, body)...)
+	}
+	return out
+}
+
+type surgeryVariant struct {
+	what string
+	data []byte
+}
+
+// initSurgery: for every box of the tree one variant without it, for every container one variant with
+// no children.
+func initSurgery(init []byte) []surgeryVariant {
+	var out []surgeryVariant
+	root := parseBoxes(init)
+	var walk func(list *[]*boxNode, path string)
+	walk = func(list *[]*boxNode, path string) {
+		for i := range *list {
+			n := (*list)[i]
+			p := path + "/" + n.typ
+			// removed
+			saved := *list
+			without := append(append([]*boxNode{}, saved[:i]...), saved[i+1:]...)
+			*list = without
+			out = append(out, surgeryVariant{"without " + p, serializeBoxes(root)})
+			*list = saved
+			if n.cont {
+				kids := n.children
+				n.children = nil
+				out = append(out, surgeryVariant{"empty " + p, serializeBoxes(root)})
+				n.children = kids
+				walk(&n.children, p)
+			}
+		}
+	}
+	walk(&root, "")
+	return out
+}
+
 // maxSizeField: largest box size field the chunk parser will act on (it allocates that much).
 func maxSizeField(s []byte) int {
 	pos, worst := 0, 0
@@ -1278,7 +1374,7 @@ func classOf(o c08obs) string {
 }
 
 func judge(c *lib.Ctx, id string, cs c08case, o c08obs) {
-	in := map[string]any{"req": cs.Req, "group": cs.Group, "expect": cs.Expect, "why": cs.Why, "model": cs.Model}
+	in := map[string]any{"req": cs.Req, "group": cs.Group, "expect": cs.Expect, "why": cs.Why, "model": cs.Model, "prelude": cs.Prelude}
 	url := cs.Req.Method + " " + cs.Req.URL
 	switch o.Class {
 	case "panic":
@@ -1340,6 +1436,29 @@ func runC08(c *lib.Ctx) error {
 		return err
 	}
 	cases := gen(c, rng)
+	// stateful requests carry their history for the replay
+	{
+		hist := map[string][]c08req{}
+		for i := range cases {
+			rq := cases[i].Req
+			key := ""
+			switch rq.Kind {
+			case "recv":
+				key = path.Dir(rq.URL) // the track directory
+			case "apiseq":
+				key = "apiseq"
+			}
+			if key == "" {
+				continue
+			}
+			h := hist[key]
+			if len(h) > 6 {
+				h = h[len(h)-6:]
+			}
+			cases[i].Prelude = append([]c08req{}, h...)
+			hist[key] = append(h, rq)
+		}
+	}
 	obs := make([]c08obs, len(cases))
 	classes := map[string]int{}
 	distinct := map[string]bool{}
@@ -1447,17 +1566,22 @@ func runC08(c *lib.Ctx) error {
 
 func replayC08(c *lib.Ctx) error {
 	type rin struct {
-		Req    c08req    `json:"req"`
-		Group  string    `json:"group"`
-		Expect string    `json:"expect"`
-		Why    string    `json:"why"`
-		Model  *modelReq `json:"model"`
+		Req     c08req    `json:"req"`
+		Group   string    `json:"group"`
+		Expect  string    `json:"expect"`
+		Why     string    `json:"why"`
+		Model   *modelReq `json:"model"`
+		Prelude []c08req  `json:"prelude"`
 	}
 	in, err := lib.LoadReplayInput[rin](c.Replay)
 	if err != nil {
 		return err
 	}
 	p := &pool{}
+	for _, pr := range in.Prelude {
+		po := p.do(pr)
+		fmt.Printf("replay C08: (prelude) %s %s -> %s\n", pr.Method, pr.URL, classOf(po))
+	}
 	o := p.do(in.Req)
 	if p.w != nil {
 		p.w.stop()
